@@ -396,12 +396,16 @@ impl Responder {
             let status = carrier.send_transaction(&tracker.penalty_tx);
             if let ConfirmationStatus::Rejected(_) = status {
                 rejected.push(uuid);
-            } else {
-                // DISCUSS: What if the tower was down for some time and was later force updated while this penalty got on-chain?
-                // Sending it will yield `ConfirmationStatus::IrrevocablyResolved` which would panic here.
-                // We might want to replace `ConfirmationStatus::IrrevocablyResolved` variant with
-                // `ConfirmationStatus::ConfirmedIn(height - IRREVOCABLY_RESOLVED)
+            } else if status.accepted() {
                 dbm.update_tracker_status(uuid, &status).unwrap();
+            } else {
+                // The penalty is already in the chain (`ConfirmationStatus::IrrevocablyResolved`), in a block we have not
+                // processed yet (e.g. we are catching up with several blocks). That status cannot be stored, so keep the
+                // tracker as it is: it will be flagged as confirmed once its block is connected.
+                log::info!(
+                    "Penalty transaction is already in the chain: {}",
+                    tracker.penalty_tx.compute_txid()
+                );
             }
         }
 
